@@ -43,6 +43,7 @@ TEXT_KEYISH = st.one_of(values.TEXT_SMALL, st.sampled_from(["'", '"', "a'b", '##
                         st.text(alphabet="ab'\"#$=,: []{}\\", max_size=6))
 param_values_full = values.json_values(text=TEXT_KEYISH, max_leaves=6)
 VALUE_STRATEGY = {'current': param_values}
+UNREAD_INPUTS = {'on': False}   # C04/C07: run bodies that do not read every declared input
 PLAIN_OBJECTS = {'on': False}   # C12: parameter objects of a plain class (represented by their definition text)
 OB_MAPPING_ARGS = {'on': False}   # AutoParameterObject arguments that are mappings (C02 known finding apo-mapping-order)
 
@@ -189,6 +190,13 @@ def programs(draw, max_modules=3, max_tasks=4, kinds=KINDS_BASIC, patterns=True,
                 t['style'] = draw(st.sampled_from(['args', 'args', 'index'])) if ok else 'index'
                 if t['style'] == 'args' and len(pnames) + len(shorts) >= 2 and draw(st.booleans()):
                     t['sig_perm'] = list(draw(st.permutations(list(range(len(pnames) + len(shorts))))))
+                if UNREAD_INPUTS['on'] and ok and pnames and t['inputs'] and draw(st.integers(0, 2)) == 0:
+                    # parameters arrive as run arguments, inputs are taken from the registry - but not all of them
+                    # (by position in the declared order)
+                    t['style'] = 'index'
+                    t.pop('sig_perm', None)
+                    n_in = len(t['inputs'])
+                    t['unread'] = sorted(draw(st.sets(st.integers(0, n_in - 1), min_size=1, max_size=n_in)))
             mod['tasks'].append(t)
             all_tasks.append((mi, len(mod['tasks']) - 1))
         if not mod['tasks']:
